@@ -3,6 +3,7 @@ use crate::common::*;
 use geometry3d::round_error::{
     max_min, verif_next_float_down, verif_next_float_up, ApproxFloat,
 };
+use geometry3d::intersection::{IntersectionInfo, SurfaceSide};
 use geometry3d::{gamma, BBox3D, Point3D, Ray3D, Transform, Vector3D};
 
 const PI: Float = std::f64::consts::PI as Float;
@@ -466,7 +467,21 @@ pub fn c06(r: &mut Rng, out: &mut Out, n: usize) {
     }
     for i in 0..n {
         let (t, s) = any_chain(r, 6, 1e3);
-        match i % 7 {
+        match i % 8 {
+            7 => {
+                // a surface frame (point, two tangents, their normal) carried through IntersectionInfo::transform
+                let dpdu = r.vec(3.);
+                let mut dpdv = r.vec(3.);
+                if dpdu.cross(dpdv).length() < 0.1 {
+                    dpdv = Vector3D::new(dpdu.y + 1., -dpdu.x, dpdu.z + 0.5);
+                }
+                let normal = dpdv.cross(dpdu).get_normalized();
+                let info = IntersectionInfo { p: r.pt(10.), normal, side: SurfaceSide::Front, dpdu, dpdv };
+                let a = info.transform(&t);
+                let b = info.inv_transform(&t);
+                let hi = |i: &IntersectionInfo| format!("{} {} {} {} {}", hp(i.p), hv(i.normal), match i.side { SurfaceSide::Front => 0, SurfaceSide::Back => 1, SurfaceSide::NonApplicable => 2 }, hv(i.dpdu), hv(i.dpdv));
+                out.case(&format!("info.tr {} {}", s, hi(&info)), &format!("{} {}", hi(&a), hi(&b)));
+            }
             0 => {
                 let (m, inv) = t.verif_elements();
                 out.case(&format!("tr.chain {}", s), &format!("{} {}", hm(&m), hm(&inv)));
